@@ -97,6 +97,16 @@ StaleDefects(o, exp) ==
   ELSE (IF o.need_build # NeedBuildRes(exp) THEN {<<"C06", "need_build_differs_from_the_specified_state">>} ELSE {})
   \cup (IF o.open # OpenRes(exp, exp.metric) THEN {<<"C06", "open_" \o OpenRes(exp, exp.metric) \o "_expected_got_" \o o.open>>} ELSE {})
 
+\* beyond the listed properties (conformance only): Reader::stats and Reader::n_nodes agree with the forest
+ReaderDrift(o, ix) ==
+  IF ~o.ok \/ ~o.rd.has \/ ix.meta = NoMeta THEN {}
+  ELSE IF ForestDefects(ix.nodes, ix.meta.roots, Live(ix), ix.meta.items) # {} THEN {}
+  ELSE (IF ~o.rd.stats_ok THEN {<<"C15", "reader_stats_failed_on_a_valid_forest">>}
+        ELSE (IF o.rd.stats # [k \in DOMAIN ix.meta.roots |-> TreeStats(ix.nodes, TreeRef(ix.meta.roots[k]), Fuel(ix.nodes))]
+              THEN {<<"C15", "reader_stats_differ_from_the_forest">>} ELSE {})
+          \cup (IF o.rd.stats_leaf # Cardinality(Live(ix)) THEN {<<"C15", "reader_stats_leaf_count">>} ELSE {}))
+       \cup (IF o.rd.n_nodes # o.rd.total_keys THEN {<<"C02", "n_nodes_is_not_the_number_of_keys">>} ELSE {})
+
 \* what every event on index i must satisfy whatever the operation
 CommonDefects(e) ==
        (IF ~e.same THEN {<<"C07", "other_index_changed">>} ELSE {})
@@ -303,7 +313,11 @@ Build ==
              \cup (IF faulted THEN {<<"C10", "cancelled_build_returned_" \o e.res.c>>} ELSE {})
              \cup (IF e.args.threads > 1 THEN {<<"C13", "build_failed_" \o e.res.c>>} ELSE {}))
      IN /\ Report("VIOL", e, IF Faulted(e) THEN {} ELSE bad)
-        /\ Report("DRIFT", e, (IF e.res.c = "Ok" /\ n > cap THEN PhaseDrift(e, pre, cap) ELSE {}) \cup StepDrift(e, n, cap))
+        /\ Report("DRIFT", e, (IF e.res.c = "Ok" /\ n > cap THEN PhaseDrift(e, pre, cap) ELSE {}) \cup StepDrift(e, n, cap)
+                               \cup (IF e.res.c = "Ok" THEN ReaderDrift(e.obs, post) ELSE {})
+                               \* the version record is written by the single-bucket shortcut only (as coded; no property speaks of it)
+                               \cup (IF e.res.c = "Ok" /\ n > cap /\ post.version # pre.version THEN {<<"C16", "version_record_written_by_a_full_build">>} ELSE {})
+                               \cup (IF e.res.c = "Ok" /\ n <= cap /\ (post.version = NoVersion \/ Len(post.version) # 3) THEN {<<"C16", "version_record_missing_after_the_shortcut">>} ELSE {}))
         /\ Bind(e, post)
         /\ caps' = [caps EXCEPT ![e.i] = caps1]
   /\ l' = l + 1
